@@ -102,8 +102,12 @@ func infoFromCell(cell *hrpc.Cell) (hrpc.RegionInfo, error) {
 		return nil, OfflineRegionError{n: string(cell.Row)}
 	}
 	// The row key is the region name: table,startkey,id[.md5.]
-	// Compare relies on finding these two commas.
-	if i := bytes.IndexByte(cell.Row, ','); i < 0 || bytes.LastIndexByte(cell.Row, ',') == i {
+	// Compare relies on finding these two commas, and the region cache on
+	// the id being a number: it looks regions up with keys ending in ",:"
+	// (':' is the first byte greater than '9') and doesn't expect to find
+	// a region named like that.
+	i, j := bytes.IndexByte(cell.Row, ','), bytes.LastIndexByte(cell.Row, ',')
+	if i < 0 || j == i || j+1 == len(cell.Row) || cell.Row[j+1] < '0' || cell.Row[j+1] > '9' {
 		return nil, fmt.Errorf("invalid region name in %q", cell)
 	}
 	var namespace []byte
